@@ -67,8 +67,8 @@ REPS = [
     dict(rep="sparse", labels="int", alabels="str", explicit_list=False, dist="sparse"),
     dict(rep="sparse", labels="mixed", alabels="tuple", explicit_list=False, dist="sparse"),
 ]
-TIERS = {"quick": dict(n_inst=140, per_inst=6, n_mc=20, mc_cap=120, n_light=24, n_special=16, n_light_special=12, n_ladder=6),
-         "thorough": dict(n_inst=1200, per_inst=8, n_mc=160, mc_cap=400, n_light=40, n_special=120, n_light_special=24, n_ladder=30)}
+TIERS = {"quick": dict(n_inst=140, per_inst=6, n_mc=20, mc_cap=120, n_light=24, n_special=16, n_light_special=12, n_ladder=6, n_near_tie=5),
+         "thorough": dict(n_inst=1200, per_inst=8, n_mc=160, mc_cap=400, n_light=40, n_special=120, n_light_special=24, n_ladder=30, n_near_tie=14)}
 FLAGS = [(0, 0), (1, 1), (0, 1), (1, 0)]
 HKINDS = ["const", "exact", "slack", "vslack"]
 INST_KEYS = ("N", "K", "PD", "GN", "GD", "ID", "abs", "avail", "P", "R", "p0")
@@ -256,6 +256,14 @@ def discount_of(m, rc):
     return m["GN"] / m["GD"]
 
 
+RM_EXP = 20            # small-magnitude family: every reward / heuristic value is multiplied by 2**-20 (exact in floats)
+
+
+def scale_of(rc):
+    fx = rc.get("fx") or {}
+    return 2.0 ** -fx["rmexp"] if "rmexp" in fx else 1.0
+
+
 def offsets(m, rc):
     """B*lev[s] per state for the large-magnitude family (real value = model value - offset), else zeros."""
     fx = rc.get("fx") or {}
@@ -301,7 +309,7 @@ def build_custom(m, rc):
         if rare and (i, j) == (rare[0], rare[1]):
             r = F(rare[3] * EPS_DEN) if t == rare[2] else r - rare[3]
         r = r - off[i] + g * off[t]
-        return float(r)
+        return float(r) * scale_of(rc)
 
     mdp = QuickMDP(
         next_state_dist=nsd, reward=reward,
@@ -433,6 +441,43 @@ def first_improvement_not_optimal(m):
     return any(v1[s] != vs[s] for s in range(N))
 
 
+def near_tie_instance(m, lo=F(1, 64), hi=F(1, 4)):
+    """Small-magnitude family: gamma = 1/2, dyadic probabilities; at an initial state the unique optimal action b
+    comes after (in the MDP's action order) an action whose exact Q* is lower by lo..hi; every other non-zero Q* gap
+    of the instance is >= lo.  Scaled by 2**-20 the gaps are 1.5e-8 .. 2.4e-7: at least 150 times msdm's own
+    rounding step (1e-10) and below a rounding step of 1e-6."""
+    if (m["GN"], m["GD"]) != (1, 2) or m["PD"] not in (2, 4):
+        return False
+    vs = pyoracle.optimal_value(m)
+    found = False
+    for s in range(m["N"]):
+        if m["abs"][s]:
+            continue
+        qs = {a: pyoracle.q_from_v(m, vs, s, a) for a in gen.avail(m, s)}
+        vals = sorted(set(qs.values()))
+        if any(0 < y - x < lo for x, y in zip(vals, vals[1:])):
+            return False
+        if m["p0"][s] > 0:
+            best = max(qs.values())
+            bs = [a for a in qs if qs[a] == best]
+            if len(bs) == 1 and any(a < bs[0] and lo <= best - qs[a] <= hi for a in qs):
+                found = True
+    return found
+
+
+_NEAR_TIE = {}
+
+
+def near_tie_instances(k):
+    """The same k instances in every run (fixed generator seed): deterministic members of the quick tier."""
+    if k not in _NEAR_TIE:
+        rng, out = random.Random(20261003), []
+        while len(out) < k:
+            out += [m for m in make_instances(rng, 1000) if near_tie_instance(m)]
+        _NEAR_TIE[k] = out[:k]
+    return _NEAR_TIE[k]
+
+
 def rare_instance(rng, m):
     """Rare-transition family: (limit-model instance, fx) or None.  One available action of a reachable
     non-absorbing state gets a 1e-9 transition to a state x outside its support, worth rho in expectation."""
@@ -509,10 +554,13 @@ def run_real(m, rc):
     other = build_for(pair["other"], rc) if pair else None
     H = [frac(x) for x in rc["H"]]
     off = offsets(m, rc)
-    if rc["hk"] == "const":
+    sc = scale_of(rc)
+    if rc["hk"] == "const" and sc != 1.0:
+        heuristic = float(H[0]) * sc
+    elif rc["hk"] == "const":
         heuristic = const_number(rc.get("hnum", "int"), H[0]) if H[0].denominator == 1 else float(H[0])     # a number, not a callable
     else:
-        hv = {b.slabel[i]: float(H[i] - off[i]) for i in range(m["N"])}
+        hv = {b.slabel[i]: float(H[i] - off[i]) * sc for i in range(m["N"])}
         heuristic = (lambda table: lambda s: table[s])(hv)
     try:
         with warnings.catch_warnings():
@@ -528,11 +576,11 @@ def run_real(m, rc):
     except Exception as e:                               # noqa: BLE001 - a clause failure ("reports convergence")
         return {"error": f"{type(e).__name__}: {e}"[:300], "etype": type(e).__name__}
     o0 = sum(F(m["p0"][s], m["ID"]) * off[s] for s in range(m["N"]))
-    out = {"converged": bool(r.converged), "initial_value": float(r.initial_value) + float(o0), "iterations": int(r.iterations),
+    out = {"converged": bool(r.converged), "initial_value": float(r.initial_value) / sc + float(o0), "iterations": int(r.iterations),
            "mag": float(max(off))}
     try:
         eg = r.explicit_graph
-        out["svm"] = {b.sidx(s): float(v) + off[b.sidx(s)] for s, v in r.state_value_map.items()}
+        out["svm"] = {b.sidx(s): float(v) / sc + off[b.sidx(s)] for s, v in r.state_value_map.items()}
         out["init"] = [b.sidx(s) for s in eg.initial_states]
         nodes = {}
         for s, n in eg.states_to_nodes.items():
@@ -540,12 +588,12 @@ def run_real(m, rc):
                 "ao": [b.aidx(a) for a in n.action_order],
                 "ns": {b.aidx(a): [b.sidx(t) for t in lst] for a, lst in n.action_nextstates.items()},
                 "vo": int(n.visitorder), "exp": bool(n.expanded), "opt": b.aidx(n.optimal_action),
-                "par": sorted(b.sidx(p) for p in n.parent_states), "val": float(n.value) + off[b.sidx(s)]}
+                "par": sorted(b.sidx(p) for p in n.parent_states), "val": float(n.value) / sc + off[b.sidx(s)]}
         out["nodes"] = nodes
         out["events"] = [{"expand": [b.sidx(s) for s in e["expand"]],
                           "anc": sorted(b.sidx(s) for s in e["anc"]),
                           "opt": {b.sidx(s): b.aidx(a) for s, a in e["opt"].items()},
-                          "vals": {b.sidx(s): v + off[b.sidx(s)] for s, v in e["vals"].items()}}
+                          "vals": {b.sidx(s): v / sc + off[b.sidx(s)] for s, v in e["vals"].items()}}
                          for e in r.event_listener.events]
     except Exception as e:                               # noqa: BLE001 - the observation interface changed
         out["obs_error"] = f"{type(e).__name__}: {e}"[:300]
@@ -705,6 +753,13 @@ def run_tolerance(m, rc, o=None):
     if "lev" in fx:
         tol += 1e-9 * fx["B"] * max(fx["lev"])
     ptol = rounding_window(m)
+    if "rmexp" in fx:
+        # real numbers = model * 2**-rmexp (a power of two: the conversion itself is exact).  Real values are compared
+        # at 1e-9 absolute plus msdm's own rounding window, the exact policy return at the rounding window alone
+        # (2e-10 absolute at gamma = 1/2); both expressed in model units here.
+        sc = 2.0 ** -fx["rmexp"]
+        tol = (rounding_window(m) + 1e-9) / sc
+        ptol = rounding_window(m) / sc
     if "rare" in fx:
         g = m["GN"] / m["GD"]
         rs = max(abs(x) for s in m["R"] for a in s for x in a) + abs(fx["rare"][3])
@@ -781,7 +836,7 @@ def shape_of(m, rc):
     absinit = any(m["p0"][s] > 0 and m["abs"][s] for s in range(m["N"]))
     fx = rc.get("fx") or {}
     return (("undiscounted" if und else "discounted-0" if m["GN"] == 0 else "discounted") + ("/abs-init" if absinit else "")
-            + ("/large-magnitude" if "lev" in fx else "") + ("/rare-transition" if "rare" in fx else "")
+            + ("/large-magnitude" if "lev" in fx else "") + ("/small-magnitude-near-tie" if "rmexp" in fx else "") + ("/rare-transition" if "rare" in fx else "")
             + ("/planner-reused" if rc.get("pair") else "") + f"/h={rc['hk']}")
 
 
@@ -1304,6 +1359,7 @@ def run(ctx):
             if rr is not None:
                 special.append(rr)
     ctx.count("large_magnitude_instances_needing_two_improvement_steps", hard)
+    special += [(m, {"rmexp": RM_EXP}) for m in near_tie_instances(t["n_near_tie"])]
     partners = {j: partner_instance(srng, instances[j]) for j in range(len(instances)) if j % 4 == 1}
     pj = sorted(partners)
     everything = instances + [m for m, _ in special] + [partners[j] for j in pj]
@@ -1386,7 +1442,8 @@ def run(ctx):
         vi = frac(o["vinit"])
         for r in make_runs(srng, m, vs, t["n_light_special"], fx=fx):
             judge_light(ctx, r, run_real(m, r["rc"]), vs, vi)
-        ctx.count("instances_large_magnitude" if "lev" in fx else "instances_rare_transition")
+        ctx.count("instances_large_magnitude" if "lev" in fx else "instances_small_magnitude_near_tie" if "rmexp" in fx
+                  else "instances_rare_transition")
     # pipeline A: the flag-free behaviours TLC emitted, replayed (the seed only decides the initial order)
     plain = [r for r in REPS if r["dist"] not in ("dict_zeros", "sparse")]
     for j, (m, vs, raw) in enumerate(mc_src, start=1):
